@@ -152,9 +152,15 @@ class EngineRestart(Target):
         is_sf = Eq(reason, ER['SubmissionFailed']) if reason is not None else False
         initiated = Eq(res, RC['RestartInitiated'])
         new_restarts, new_resub = this.restarts, this._resubmissionAttempts
-        return restart_clauses(M, listed, is_sf, _in(reason, [ER['Killed'], ER['Cancelled']]),
-                               st.old_restarts, new_restarts, st.old_resub, new_resub,
-                               g['runs'], g['run_ok'], initiated, _in(res, list(RC.values())))
+        cl = restart_clauses(M, listed, is_sf, _in(reason, [ER['Killed'], ER['Cancelled']]),
+                             st.old_restarts, new_restarts, st.old_resub, new_resub,
+                             g['runs'], g['run_ok'], initiated, _in(res, list(RC.values())))
+        # while the relaunch is pending (launch delay) the engine shows NO task: _setExitReason prefers the exit reason of
+        # `self.process`, so a kill() in that window must not be recorded with the reason of the task that was restarted
+        # ('a task is never started again after it was killed')
+        if g['runs'] >= 1:
+            cl.append(('no-stale-task-while-the-relaunch-is-pending', this.process is None))
+        return cl
 
 
 def _listed(hook_on, reason):
